@@ -529,4 +529,52 @@ theorem parseWith_dumps_pyEq (lim : Nat) (v : PyVal) (hrep : jsonRep v = true) (
     ∃ w, parseWith lim (dumps v) = .ok w ∧ PyVal.pyEq w v = true :=
   ⟨_, parseWith_dumps lim v hrep hnum, pyEq_canon v hrep⟩
 
+/-! ### when the side condition on numbers holds -/
+
+/-- with the digit limit disabled (`sys.set_int_max_str_digits(0)`) every integer is read back -/
+theorem intFits_zero (n : Int) : intFits 0 n = true := by simp [intFits, intLimited]
+
+/-- under any limit, integers of at most 640 digits are read back (the limit is not even consulted) -/
+theorem intFits_of_length (lim : Nat) (n : Int) (h : (natStr n.natAbs).length ≤ 640) : intFits lim n = true := by
+  have h3 : ¬ 640 < (natStr n.natAbs).length := by omega
+  simp [intFits, intLimited, h3]
+
+/-- under CPython's default, integers of at most 4300 digits -/
+theorem intFits_default (n : Int) (h : (natStr n.natAbs).length ≤ 4300) : intFits defaultLimit n = true := by
+  have h3 : ¬ 4300 < (natStr n.natAbs).length := by omega
+  simp [intFits, intLimited, defaultLimit, h3]
+
+/-! ### non-vacuity: a nested document with every kind of leaf; the kernel runs the reader on its text as well -/
+
+def exampleDoc : PyVal :=
+  .dict [(L "payload", .dict [(L "q\"uo\\te\n\x01\x7f.", .list [.int (-5), .int 123456789012345678901234567890, .bool true, .none,
+            .float (L "1e+16"), .float (L "-0.0"), .float (L "2.5e-07"), .float (L "NaN"), .list [], .dict []]),
+          (L "é😀", .str (L "astral 😀, BMP \u20ac, slash /"))]),
+         (L "header", .dict [(L "version", .str (L "1.2"))])]
+
+example : jsonRep exampleDoc = true ∧ numsOk defaultLimit exampleDoc = true := by decide +kernel
+
+example : parse (dumps exampleDoc) = .ok (PyVal.canon exampleDoc) :=
+  parse_dumps exampleDoc (by decide +kernel) (by decide +kernel)
+
+/-- the same fact by evaluation in the kernel (independent of the proof above) -/
+example : (match parse (dumps exampleDoc) with | .ok w => PyVal.beq w (PyVal.canon exampleDoc) | .error _ => false) = true := by
+  decide +kernel
+
+/-- float tokens: what `float.__repr__` produces is accepted, other spellings of numbers are not -/
+example : floatTok (L "1.5") = true ∧ floatTok (L "-0.0") = true ∧ floatTok (L "1e+16") = true ∧ floatTok (L "2.5e-07") = true
+    ∧ floatTok (L "1.7976931348623157e+308") = true ∧ floatTok (L "Infinity") = true
+    ∧ floatTok (L "1") = false ∧ floatTok (L "1.") = false ∧ floatTok (L ".5") = false ∧ floatTok (L "1e") = false
+    ∧ floatTok (L "01.5") = false ∧ floatTok (L "1.5 ") = false ∧ floatTok (L "inf") = false ∧ floatTok (L "nan") = false := by
+  decide +kernel
+
+/-- the side conditions are needed: a repeated key, a number-like float token that is not one float, and a foreign
+object do not come back -/
+example : (match parse (render 0 (.dict [(L "a", .int 1), (L "a", .int 2)])) with
+           | .ok w => PyVal.beq w (.dict [(L "a", .int 2)]) | .error _ => false) = true
+    ∧ (match parse (render 0 (.list [.float (L "1.5.5")])) with | .ok _ => false | .error e => e == .valueError) = true
+    ∧ (match parse (render 0 (.float (L "15"))) with | .ok w => PyVal.beq w (.int 15) | .error _ => false) = true
+    ∧ (match parse (render 0 (.other true)) with | .ok _ => false | .error e => e == .valueError) = true := by
+  decide +kernel
+
 end PM.JsonParse
